@@ -1,6 +1,8 @@
 import Abyss.Props.C06
 import Abyss.Props.C06Bound
 import Abyss.Lemmas.AllocBytes
+import Abyss.Lemmas.PieceBytesVal
+import Abyss.Lemmas.PieceBytesKey
 #print axioms Abyss.C06_partition
 #print axioms Abyss.C06_tiling
 #print axioms Abyss.C06_no_overlap
@@ -22,3 +24,11 @@ import Abyss.Lemmas.AllocBytes
 #print axioms Abyss.countFree_bytes
 #print axioms Abyss.byteOK_key
 #print axioms Abyss.byteOK_val
+#print axioms Abyss.valAddPiece_bytes
+#print axioms Abyss.valRewrite_bytes
+#print axioms Abyss.valDeletePiece_bytes
+#print axioms Abyss.valRead_bytes
+#print axioms Abyss.keyAddPiece_bytes
+#print axioms Abyss.keyRewrite_bytes
+#print axioms Abyss.keyDeletePiece_bytes
+#print axioms Abyss.keyRead_bytes
